@@ -10,8 +10,32 @@ class WigBedProp(Prop):
     view_tags = ("R", "OPEN", "CHROMS", "HDR", "A")
 
     def model_extra(self, case, il):
+        if case.kind in ("readwig", "readbed") and self.pid != "C10":
+            return []
         z = bbgen.first_line(il, "ZOOMS")
         return ["LEVELS" + (z[5:] if z else "")]
+
+    # files from the independent encoder of C10 (either byte order, any index layout, section types, permuted ids): the
+    # readers' byte-order arms and decoders that no bigtools-written file reaches. Judged by C10's oracle and comparison.
+    def foreign_cases(self, rng, tier, bed, quick_n, thorough_n, readers=("plain", "cached", "fresh", "freshcached")):
+        from props import C10 as c10
+        out = []
+        for k in range(thorough_n if tier == "thorough" else quick_n):
+            c = c10.foreign_case(rng.fork(f"foreign{k}"), f"f{k}", bed=bed, readers=readers)
+            if c is not None:
+                c.tags.add("foreign_file")
+                out.append(c)
+        return out
+
+    def foreign_oracle(self, case, il):
+        from props import C10 as c10
+        return c10.PROP.oracle(case, il)
+
+    def compare(self, case, il, ml):
+        if case.kind in ("readwig", "readbed") and self.pid != "C10":
+            from props import C10 as c10
+            return c10.PROP.compare(case, il, ml)
+        return super().compare(case, il, ml)
 
     def view(self, lines):
         return [l for l in lines if l.split(" ")[0] in self.view_tags]
